@@ -70,7 +70,7 @@ structure Mesh (P C T : Type) where
   cols : List C
   tcs : List T
   tris : List Tri
-  deriving Repr
+  deriving Repr, DecidableEq
 
 variable {P C T : Type}
 
@@ -268,11 +268,369 @@ def vertexNormalSums (n : Nat) (ts : List Tri) (fn : List V3) : List V3 :=
       let k := p.1.verts.count v
       V3.add acc (V3.smul (k : Rat) p.2)) V3.zero))
 
-/-! ## per-mesh wrappers used by the driver -/
+/-! ## whole-mesh queries (what the public methods return; squared where the code takes a `sqrt`) -/
 
+/-- `points[trilist]` for one row (a row indexing past the vertex array raises in numpy: `none`) -/
 def getTri {α} (pts : List α) (t : Tri) : Option (α × α × α) :=
   match pts[t.1]?, pts[t.2.1]?, pts[t.2.2]? with
   | some a, some b, some c => some (a, b, c)
   | _, _, _ => none
+
+/-- `points[trilist]`: the corner coordinates of every triangle -/
+def triCorners {α} (pts : List α) (ts : List Tri) : List (α × α × α) := ts.filterMap (getTri pts)
+
+/-- `tri_areas()` of a 2-D mesh -/
+def meshAreas2 (pts : List V2) (ts : List Tri) : List Rat :=
+  (triCorners pts ts).map (fun q => area2 q.1 q.2.1 q.2.2)
+/-- squares of `tri_areas()` of a 3-D mesh -/
+def meshAreasSq3 (pts : List V3) (ts : List Tri) : List Rat :=
+  (triCorners pts ts).map (fun q => areaSq3 q.1 q.2.1 q.2.2)
+/-- squares of `edge_lengths()` (AB, BC, CA per triangle, concatenated) -/
+def meshEdgeSq2 (pts : List V2) (ts : List Tri) : List Rat :=
+  (triCorners pts ts).flatMap (fun q => edgeSq2 q.1 q.2.1 q.2.2)
+def meshEdgeSq3 (pts : List V3) (ts : List Tri) : List Rat :=
+  (triCorners pts ts).flatMap (fun q => edgeSq3 q.1 q.2.1 q.2.2)
+/-- `np.cross(b - a, c - a)` of `compute_face_normals`, one row per triangle -/
+def meshFaceNormalsRaw (pts : List V3) (ts : List Tri) : List V3 :=
+  (triCorners pts ts).map (fun q => faceNormalRaw q.1 q.2.1 q.2.2)
+
+/-- squares of `unique_edge_lengths()`: `‖p[hi] − p[lo]‖²` for every unique edge `(lo, hi)` -/
+def uniqueEdgeSq3 (pts : List V3) (ts : List Tri) : List Rat :=
+  (uniqueEdges ts).filterMap (fun e => match pts[e.1]?, pts[e.2]? with
+    | some a, some b => some (V3.normSq (V3.sub b a))
+    | _, _ => none)
+def uniqueEdgeSq2 (pts : List V2) (ts : List Tri) : List Rat :=
+  (uniqueEdges ts).filterMap (fun e => match pts[e.1]?, pts[e.2]? with
+    | some a, some b => some (V2.normSq (V2.sub b a))
+    | _, _ => none)
+
+/-- squared length of the undirected edge `e` in the vertex array (0 when an index is out of range) -/
+def edgeSqAt3 (pts : List V3) (e : Edge) : Rat :=
+  match pts[e.1]?, pts[e.2]? with
+  | some a, some b => V3.normSq (V3.sub b a)
+  | _, _ => 0
+
+/-- `np.mean` of a non-empty 1-D array (`mean_tri_area`, `mean_edge_length`) -/
+def meanQ (l : List Rat) : Rat := l.foldr (· + ·) 0 / (l.length : Rat)
+
+/-! ## `_normalize`, `compute_face_normals`, `compute_vertex_normals` with the `sqrt` contract explicit -/
+
+/-- the contract of `np.sqrt`: the value returned for `sqrt q` is the non-negative root -/
+def IsRoot (r q : Rat) : Prop := 0 ≤ r ∧ r * r = q
+
+/-- one row of `_normalize`: `nan_to_num(v / r)` with `r = sqrt (v·v)`; `0/0 = nan ↦ 0` -/
+def normalize1 (r : Rat) (v : V3) : V3 := if r = 0 then V3.zero else V3.smul (1 / r) v
+
+/-- `_normalize(v)`, the row norms `rs` being the results of `np.sqrt` -/
+def normalizeRows (rs : List Rat) (vs : List V3) : List V3 := List.zipWith normalize1 rs vs
+
+/-- `rs` are the square roots `_normalize` computes for the rows `vs` -/
+def RootsOf : List Rat → List V3 → Prop
+  | [], [] => True
+  | r :: rs, v :: vs => IsRoot r (V3.normSq v) ∧ RootsOf rs vs
+  | _, _ => False
+
+/-- `compute_face_normals(points, trilist)` -/
+def faceNormals (rs : List Rat) (pts : List V3) (ts : List Tri) : List V3 :=
+  normalizeRows rs (meshFaceNormalsRaw pts ts)
+
+/-- `np.add.at(acc, i, x)` for one index -/
+def addAt (acc : List V3) (i : Nat) (x : V3) : List V3 := acc.modify i (fun a => V3.add a x)
+
+/-- `np.add.at(acc, idx, vals)`: unbuffered, every occurrence of an index adds -/
+def scatterAdd (acc : List V3) (idx : List Nat) (vals : List V3) : List V3 :=
+  (idx.zip vals).foldl (fun a p => addAt a p.1 p.2) acc
+
+/-- the three scatter-adds of `compute_vertex_normals`, as coded: column 0, then column 1, then
+column 2 of the triangle list, each adding the face normals onto `np.zeros(points.shape)` -/
+def vertexNormalSumsCoded (n : Nat) (ts : List Tri) (fn : List V3) : List V3 :=
+  scatterAdd (scatterAdd (scatterAdd (List.replicate n V3.zero) (ts.map (fun t => t.1)) fn)
+    (ts.map (fun t => t.2.1)) fn) (ts.map (fun t => t.2.2)) fn
+
+/-- `compute_vertex_normals(points, trilist)`: `rs` = the roots taken for the face normals, `rs'` the
+roots taken for the accumulated rows -/
+def vertexNormals (rs rs' : List Rat) (pts : List V3) (ts : List Tri) : List V3 :=
+  normalizeRows rs' (vertexNormalSumsCoded pts.length ts (faceNormals rs pts ts))
+
+/-- sum of a list of vectors -/
+def vsum (l : List V3) : V3 := l.foldr V3.add V3.zero
+
+/-- SPECIFICATION of the accumulated vertex normal: the sum of the normals of the incident
+triangles (a corner occurring `k` times in a row counts `k` times) -/
+def incidentSum (ts : List Tri) (fn : List V3) (v : Nat) : V3 :=
+  vsum ((ts.zip fn).map (fun p => V3.smul ((p.1.verts.count v : Nat) : Rat) p.2))
+
+/-! ## `as_pointgraph`: the undirected graph on the vertices whose edges are the triangle sides -/
+
+/-- `PointUndirectedGraph.edges` of `as_pointgraph()`: upper-triangular non-zeros of the symmetric
+adjacency matrix built from AB, BC, CA of every triangle — as a duplicate-free list -/
+def graphEdges (ts : List Tri) : List Edge := uniqueEdges ts
+
+/-! ## `subsampled_grid_triangulation(shape, subsampling=1)` — the triangle list of `init_2d_grid` -/
+
+/-- the cells `(i, j)` of an `r × c` grid of points in the order of `indices_grid[:-1, :-1].ravel()` -/
+def gridCells (r c : Nat) : List (Nat × Nat) :=
+  (List.range (r - 1)).flatMap (fun i => (List.range (c - 1)).map (fun j => (i, j)))
+/-- bottom-left triangle of a cell: `[grid[i, j], grid[i+1, j], grid[i+1, j+1]]` (row-major indices) -/
+def gridDown (c : Nat) (p : Nat × Nat) : Tri := (p.1 * c + p.2, (p.1 + 1) * c + p.2, (p.1 + 1) * c + p.2 + 1)
+/-- top-right triangle of a cell: `[grid[i, j], grid[i+1, j+1], grid[i, j+1]]` -/
+def gridUp (c : Nat) (p : Nat × Nat) : Tri := (p.1 * c + p.2, (p.1 + 1) * c + p.2 + 1, p.1 * c + p.2 + 1)
+/-- `np.vstack([tri_down_left, tri_up_right])` -/
+def gridTriangulation (r c : Nat) : List Tri :=
+  (gridCells r c).map (gridDown c) ++ (gridCells r c).map (gridUp c)
+
+/-! ## histories: objects with instance state under queries, masks and copies -/
+
+/-- a mesh object: its arrays plus whatever an edge query may have left behind on the instance
+(`None` on every object of the code in /repo: no query writes an attribute — `GenProps/C17`) -/
+structure Obj (P C T : Type) where
+  mesh : Mesh P C T
+  memo : Option (List Edge)
+
+/-- one call on the `i`-th object of the history -/
+inductive HOp where
+  | edges (i : Nat)                      -- `obj.edge_indices()`
+  | bound (i : Nat)                      -- `obj.boundary_tri_index()`
+  | mask (i : Nat) (m : List Bool)       -- `obj.from_mask(m)`: a NEW object (when it succeeds)
+  | trimask (i : Nat) (m : List Bool)    -- `obj.from_tri_mask(m)`
+  | copy (i : Nat)                       -- `obj.copy()`: a NEW object
+
+/-- what the caller observes -/
+inductive Obs (P C T : Type) where
+  | edges (l : List Edge)
+  | bits (l : List Bool)
+  | made (M : Mesh P C T)                -- the arrays of the object just created
+  | err (e : Err)
+  | noobj
+  deriving DecidableEq
+
+/-- the edge list a query returns and the memo it leaves: with `memoise = false` (the code in
+/repo) it is recomputed from `trilist` on every call; with `memoise = true` (a cache on the
+instance that nothing invalidates) the first answer is kept -/
+def edgesOf (memoise : Bool) (o : Obj P C T) : List Edge × Obj P C T :=
+  if memoise then
+    match o.memo with
+    | some e => (e, o)
+    | none => (edgeIndices o.mesh.tris, { o with memo := some (edgeIndices o.mesh.tris) })
+  else (edgeIndices o.mesh.tris, o)
+
+/-- `x.reshape(-1, 3)` -/
+def chunks3 {α} : List α → List (List α)
+  | a :: b :: c :: rest => [a, b, c] :: chunks3 rest
+  | _ => []
+
+/-- `boundary_tri_index` as coded, from whatever `self.edge_indices()` returns: key every edge,
+count the keys, `lonely.reshape(-1, 3).any(axis=1)` -/
+def boundFromEdges (n : Nat) (es : List Edge) : List Bool :=
+  let keys := es.map (edgeKey n)
+  (chunks3 keys).map (fun ch => ch.any (fun x => keys.count x == 1))
+
+def boundOf (memoise : Bool) (o : Obj P C T) : List Bool × Obj P C T :=
+  let r := edgesOf memoise o
+  (boundFromEdges o.mesh.pts.length r.1, r.2)
+
+/-- one call.  `from_mask` starts with `tm = self.copy()`, which carries EVERY instance attribute
+(so also a memo) to the new object, and then rebinds `trilist` and the per-vertex arrays. -/
+def stepH (memoise : Bool) (objs : List (Obj P C T)) : HOp → List (Obj P C T) × Obs P C T
+  | .edges i => match objs[i]? with
+    | none => (objs, .noobj)
+    | some o => let (e, o') := edgesOf memoise o; (objs.set i o', .edges e)
+  | .bound i => match objs[i]? with
+    | none => (objs, .noobj)
+    | some o => let (b, o') := boundOf memoise o; (objs.set i o', .bits b)
+  | .mask i m => match objs[i]? with
+    | none => (objs, .noobj)
+    | some o => match fromMask o.mesh m with
+      | .error e => (objs, .err e)
+      | .ok R => (objs ++ [{ mesh := R, memo := o.memo }], .made R)
+  | .trimask i m => match objs[i]? with
+    | none => (objs, .noobj)
+    | some o => match fromTriMask o.mesh m with
+      | .error e => (objs, .err e)
+      | .ok R => (objs ++ [{ mesh := R, memo := o.memo }], .made R)
+  | .copy i => match objs[i]? with
+    | none => (objs, .noobj)
+    | some o => (objs ++ [o], .made o.mesh)
+
+def runH (memoise : Bool) : List (Obj P C T) → List HOp → List (Obj P C T) × List (Obs P C T)
+  | objs, [] => (objs, [])
+  | objs, op :: ops =>
+    let (objs', r) := stepH memoise objs op
+    let (objs'', rs) := runH memoise objs' ops
+    (objs'', r :: rs)
+
+/-- SPECIFICATION of a history: objects are nothing but their arrays; every query is answered from
+the arrays of the object asked, every mask / copy makes a new object and touches no other -/
+def stepSpec (ms : List (Mesh P C T)) : HOp → List (Mesh P C T) × Obs P C T
+  | .edges i => match ms[i]? with
+    | none => (ms, .noobj)
+    | some M => (ms, .edges (edgeIndices M.tris))
+  | .bound i => match ms[i]? with
+    | none => (ms, .noobj)
+    | some M => (ms, .bits (boundaryCount M.pts.length M.tris))
+  | .mask i m => match ms[i]? with
+    | none => (ms, .noobj)
+    | some M => match fromMask M m with
+      | .error e => (ms, .err e)
+      | .ok R => (ms ++ [R], .made R)
+  | .trimask i m => match ms[i]? with
+    | none => (ms, .noobj)
+    | some M => match fromTriMask M m with
+      | .error e => (ms, .err e)
+      | .ok R => (ms ++ [R], .made R)
+  | .copy i => match ms[i]? with
+    | none => (ms, .noobj)
+    | some M => (ms ++ [M], .made M)
+
+def runSpec : List (Mesh P C T) → List HOp → List (Mesh P C T) × List (Obs P C T)
+  | ms, [] => (ms, [])
+  | ms, op :: ops =>
+    let (ms', r) := stepSpec ms op
+    let (ms'', rs) := runSpec ms' ops
+    (ms'', r :: rs)
+
+/-- a freshly constructed object -/
+def Obj.fresh (M : Mesh P C T) : Obj P C T := { mesh := M, memo := none }
+
+/-! ## instance state: which attributes a public query writes (regenerated table, GenProps/C17) -/
+
+/-- (class, query, attributes written) -/
+abbrev WriteTable := List (String × String × List String)
+
+/-- the public queries of the three mesh classes (everything public except the declared mutator
+`from_vector_inplace` and the viewers), alphabetical as the harness lists them -/
+def triMeshQueries : List String :=
+  ["as_pointgraph", "as_vector", "boundary_tri_index", "bounding_box", "bounds", "centre",
+   "centre_of_bounds", "constrain_to_bounds", "copy", "distance_to", "edge_indices",
+   "edge_lengths", "edge_vectors", "from_mask", "from_tri_mask", "from_vector", "h_points",
+   "has_landmarks", "has_nan_values", "landmarks", "lms", "mean_edge_length", "mean_tri_area",
+   "n_dims", "n_landmark_groups", "n_parameters", "n_points", "n_tris", "norm", "range", "tojson",
+   "tri_areas", "tri_normals", "unique_edge_indices", "unique_edge_lengths", "unique_edge_vectors",
+   "vertex_normals", "with_dims"]
+def colouredQueries : List String :=
+  ["as_pointgraph", "as_vector", "boundary_tri_index", "bounding_box", "bounds", "centre",
+   "centre_of_bounds", "clip_texture", "constrain_to_bounds", "copy", "distance_to",
+   "edge_indices", "edge_lengths", "edge_vectors", "from_mask", "from_tri_mask", "from_vector",
+   "h_points", "has_landmarks", "has_nan_values", "landmarks", "lms", "mean_edge_length",
+   "mean_tri_area", "n_channels", "n_dims", "n_landmark_groups", "n_parameters", "n_points",
+   "n_tris", "norm", "range", "rescale_texture", "tojson", "tri_areas", "tri_normals",
+   "unique_edge_indices", "unique_edge_lengths", "unique_edge_vectors", "vertex_normals",
+   "with_dims"]
+def texturedQueries : List String :=
+  ["as_pointgraph", "as_vector", "boundary_tri_index", "bounding_box", "bounds", "centre",
+   "centre_of_bounds", "clip_texture", "constrain_to_bounds", "copy", "distance_to",
+   "edge_indices", "edge_lengths", "edge_vectors", "from_mask", "from_tri_mask", "from_vector",
+   "h_points", "has_landmarks", "has_nan_values", "landmarks", "lms", "mean_edge_length",
+   "mean_tri_area", "n_channels", "n_dims", "n_landmark_groups", "n_parameters", "n_points",
+   "n_tris", "norm", "range", "rescale_texture", "tcoords_pixel_scaled", "tojson", "tri_areas",
+   "tri_normals", "unique_edge_indices", "unique_edge_lengths", "unique_edge_vectors",
+   "vertex_normals", "with_dims"]
+
+/-- the only state a query may touch: the lazily created (empty) landmark manager -/
+def lazyLandmarkQueries : List String := ["as_pointgraph", "landmarks", "n_landmark_groups", "tojson"]
+
+def expectedRow (cls q : String) : String × String × List String :=
+  (cls, q, if lazyLandmarkQueries.contains q then ["_landmarks"] else [])
+
+/-- what the model assumes of menpo's mesh classes: no query writes `points`, `trilist`, `colours`,
+`tcoords`, `texture` or adds an attribute (no memo on the instance) -/
+def expectedQueryWrites : WriteTable :=
+  triMeshQueries.map (expectedRow "TriMesh") ++ colouredQueries.map (expectedRow "ColouredTriMesh")
+    ++ texturedQueries.map (expectedRow "TexturedTriMesh")
+
+/-! ## dispatch and transcription fingerprints (regenerated tables, GenProps/C17) -/
+
+/-- (class, [(method, class of the MRO that defines it)]) -/
+abbrev SupplierTable := List (String × List (String × String))
+/-- (function, names its body refers to) -/
+abbrev NameTable := List (String × List String)
+
+def suppliedMethods : List String :=
+  ["_isolated_mask", "as_pointgraph", "boundary_tri_index", "copy", "edge_indices",
+   "edge_lengths", "edge_vectors", "from_mask", "from_tri_mask", "mean_edge_length",
+   "mean_tri_area", "tri_areas", "tri_normals", "unique_edge_indices", "unique_edge_lengths",
+   "unique_edge_vectors", "vertex_normals"]
+
+/-- what the model assumes about dispatch: every geometry query, `from_tri_mask` and `_isolated_mask`
+are TriMesh's code for the three classes, `from_mask` is overridden by each subclass (the three bodies
+modelled by `fromMask`), `copy` is Copyable's -/
+def expectedSupplierOf (cls m : String) : String :=
+  if m == "copy" then "Copyable" else if m == "from_mask" then cls else "TriMesh"
+
+def expectedSuppliers : SupplierTable :=
+  ["TriMesh", "ColouredTriMesh", "TexturedTriMesh"].map
+    (fun c => (c, suppliedMethods.map (fun m => (m, expectedSupplierOf c m))))
+
+/-- the bodies this file transcribes, fingerprinted by the names they refer to: a function that
+starts to refer to something else (a clamp in `_normalize`, a delegation in a subclass `from_mask`,
+a memo attribute in `edge_indices`) no longer matches and the transcription has to be re-examined -/
+def expectedMechanism : NameTable :=
+  [("TriMesh.from_mask",
+     ["ValueError", "_isolated_mask", "all", "copy", "mask_adjacency_array", "n_points", "np",
+      "points", "reindex_adjacency_array", "shape", "trilist"]),
+   ("ColouredTriMesh.from_mask",
+     ["ValueError", "_isolated_mask", "all", "colours", "copy", "mask_adjacency_array",
+      "n_points", "np", "points", "reindex_adjacency_array", "shape", "trilist"]),
+   ("TexturedTriMesh.from_mask",
+     ["ValueError", "_isolated_mask", "all", "copy", "mask_adjacency_array", "n_points", "np",
+      "points", "reindex_adjacency_array", "shape", "tcoords", "trilist"]),
+   ("TriMesh.from_tri_mask",
+     ["bool", "from_mask", "n_points", "np", "ravel", "trilist", "unique", "zeros"]),
+   ("TriMesh._isolated_mask",
+     ["copy", "mask_adjacency_array", "nonzero", "np", "setdiff1d", "trilist"]),
+   ("TriMesh.tri_areas",
+     ["ValueError", "abs", "cross", "linalg", "n_dims", "norm", "np", "points", "trilist"]),
+   ("TriMesh.boundary_tri_index",
+     ["any", "astype", "edge_indices", "int64", "n_points", "np", "ravel", "reshape", "sort",
+      "unique"]),
+   ("TriMesh.edge_indices",
+     ["hstack", "np", "reshape", "trilist"]),
+   ("TriMesh.unique_edge_indices",
+     ["ascontiguousarray", "dtype", "edge_indices", "itemsize", "np", "shape", "sort", "unique",
+      "view", "void"]),
+   ("TriMesh.edge_vectors",
+     ["hstack", "n_dims", "np", "points", "reshape", "trilist"]),
+   ("TriMesh.edge_lengths",
+     ["edge_vectors", "linalg", "norm", "np"]),
+   ("TriMesh.unique_edge_vectors",
+     ["points", "unique_edge_indices"]),
+   ("TriMesh.unique_edge_lengths",
+     ["linalg", "norm", "np", "unique_edge_vectors"]),
+   ("TriMesh.mean_edge_length",
+     ["edge_lengths", "mean", "np", "unique_edge_lengths"]),
+   ("TriMesh.mean_tri_area",
+     ["mean", "np", "tri_areas"]),
+   ("TriMesh.tri_normals",
+     ["ValueError", "compute_face_normals", "n_dims", "points", "trilist"]),
+   ("TriMesh.vertex_normals",
+     ["ValueError", "compute_vertex_normals", "n_dims", "points", "trilist"]),
+   ("TriMesh.as_pointgraph",
+     ["PointUndirectedGraph", "_convert_edges_to_symmetric_adjacency_matrix", "graph",
+      "landmarks", "points", "shape", "trilist", "trilist_to_adjacency_array"]),
+   ("mask_adjacency_array",
+     ["any", "isin", "nonzero", "np", "ravel", "reshape", "shape"]),
+   ("reindex_adjacency_array",
+     ["arange", "int", "max", "np", "shape", "unique"]),
+   ("_normalize",
+     ["nan_to_num", "np", "sqrt", "sum"]),
+   ("compute_face_normals",
+     ["_normalize", "cross", "np"]),
+   ("compute_vertex_normals",
+     ["_normalize", "add", "at", "compute_face_normals", "dtype", "np", "shape", "zeros"]),
+   ("subsampled_grid_triangulation",
+     ["arange", "astype", "concatenate", "np", "prod", "ravel", "uint32", "vstack", "zeros"]),
+   ("trilist_to_adjacency_array",
+     ["concatenate", "hstack", "np"])]
+
+/-- a mesh object answering queries from its state -/
+structure Machine (S Q R : Type) where
+  step : S → Q → S × R
+
+def Machine.run {S Q R} (m : Machine S Q R) : S → List Q → S × List R
+  | s, [] => (s, [])
+  | s, q :: qs =>
+    let (s', r) := m.step s q
+    let (s'', rs) := m.run s' qs
+    (s'', r :: rs)
 
 end MenpoModel.C17
